@@ -1,0 +1,18 @@
+//! Verification hooks, compiled only with the `verif-hooks` cargo feature.
+//!
+//! The only hook is an offset that is added to the system clock sample taken by the datastore, so
+//! that expiration and clock-rollback behaviour can be exercised deterministically.
+
+use std::sync::atomic::{AtomicI64, Ordering};
+
+static CLOCK_OFFSET_SECS: AtomicI64 = AtomicI64::new(0);
+
+/// Sets the number of seconds added to every system clock sample.
+pub fn set_clock_offset_secs(secs: i64) {
+    CLOCK_OFFSET_SECS.store(secs, Ordering::SeqCst);
+}
+
+/// Returns the offset currently added to every system clock sample.
+pub fn clock_offset() -> chrono::Duration {
+    chrono::Duration::seconds(CLOCK_OFFSET_SECS.load(Ordering::SeqCst))
+}
